@@ -18,6 +18,18 @@ CHECKS = {
     ref="DESIGN.md section 5 C01"),
 }
 
+CHECKS['C02'] = dict(
+    text=("TLC exhausts the view invariants of MC_Metric (quadratic form of L^T L, Euclidean distance of embeddings, "
+          "symmetry and PSD of M) on the integer grid; for all 17 estimators one recorded 'Views' behaviour per fitted "
+          "model holds the outputs of transform, get_mahalanobis_matrix, pair_distance, pair_score, score_pairs, "
+          "get_metric (plain, squared) and of the same query as list / Fortran / non-contiguous / integer / "
+          "single-pair / index+preprocessor input; TLC recomputes every view from the logged components_ in exact "
+          "dyadic arithmetic (ObsMetric!ViewsFails)."),
+    note=("Tolerance 2^-30 relative + 2^-45 of the operand scale (code rounds at 2^-53); exhaustive only on the small "
+          "grid, sampling beyond; trusted base as C01."),
+    technique="TLA+ spec (Mahalanobis/ObsMetric) + TLC exhaustive model + TLC trace validation of recorded behaviours",
+    ref="DESIGN.md section 5 C02")
+
 NOT_YET = {}
 
 def main():
